@@ -848,6 +848,17 @@ def check_pid_selection(ctx, bp, M):
             p = int(round(kw.get('ppd', 1)))
             for name, rows, ws in ment:
                 cmp_pid_field(ctx, 'unpack_pids(args)', case, name, parse_writes(ws), out[name], b, p, np.float32, jcoords=jc)
+            # oracle (independent of the model): an accepted ppd is within isclose of an integer and the documented
+            # Lagrangian position is index*Box/ppd - Box/2 for THAT integer, however the float was spelled
+            if 'lagr_pos' in out and p > 0:
+                for r in range(len(w3)):
+                    for c in range(3):
+                        ex = Fraction(jc[r][c]) * b / p - b / 2
+                        got = Fraction(float(out['lagr_pos'][r, c]))
+                        if abs(got - ex) > Fraction(lagr_tol(jc[r][c], b, p, np.float32)):
+                            ctx.fail('lagr_pos is not index*Box/ppd - Box/2 for an accepted non-literal ppd',
+                                     dict(case, row=r, comp=c), float(got), 'j=%d value=%s' % (jc[r][c], ex),
+                                     key='aux-lagr_pos-ppd-arg')
 
 
 def check_pid_kernel(ctx, bp, M):
